@@ -462,8 +462,14 @@ func checkCase(c *Case, count bool) (err error) {
 		}
 	}
 	if _, e := f.Handle("GET", "/zz-c19-decline/{x}", func(ctx fox.Context) { ctx.Fox().HandleNoRoute(ctx) }, fox.WithClientIPResolver(res(8)), fox.WithMiddleware(guard)); e == nil {
+		// a host no generated hostname pattern can match (five labels): the request is served by the path-only route just
+		// registered; if it is not (the case's own pattern claims the request), the scenario says nothing and is left out
+		const dhost = "zz.c19.decline.example.test"
+		if rte, tsr := f.Reverse("GET", dhost, "/zz-c19-decline/v"); rte == nil || tsr || rte.Pattern() != "/zz-c19-decline/{x}" {
+			return nil
+		}
 		for _, mode := range []string{"answers", "panic", "answers"} {
-			dreq := httptest.NewRequest("GET", "http://example.com/zz-c19-decline/v", nil)
+			dreq := httptest.NewRequest("GET", "http://"+dhost+"/zz-c19-decline/v", nil)
 			dreq.Header.Set("X-C19-Decline", mode)
 			f.ServeHTTP(httptest.NewRecorder(), dreq)
 			if declineErr != nil {
